@@ -655,13 +655,16 @@ class C10(EvalProp):
                     pats.add(x + qx + y)
                     pats.add(x + qx + "|" + y)
         pats |= {"", "^a", "a$", "^a$", "^a|b$", "a|", "|a", "()", "(a|)", "a)(?:b", "(", ")", "[", "a**", "a{", "a{2,1}", "[b-a]", "(?:a|b)c",
-                 "^", "$", "a^", "$a", "(^a)", "a|b|c", "((a))", "[.]", "[ab][ab]", ".*", ".+", "..", "a.c", "a\\\\.c", "a\\\\", "\\\\(a\\\\)", "[\\\\]]", "a\\nb"}
-        subs = [""] + ["".join(t) for n in (1, 2, 3) for t in itertools.product("abc", repeat=n)] + ["a\rb", "a\nb", "a.c", "(a)", "abab", "aab", "bbbb", "a\\", "]", "\r", "\n", "é", "\U0001F600", "ab\U0001F600"]
+                 "^", "$", "a^", "$a", "(^a)", "a|b|c", "((a))", "[.]", "[ab][ab]", ".*", ".+", "..", "a.c", "a\\\\.c", "a\\\\", "\\\\(a\\\\)", "[\\\\]]", "a\\nb",
+                 "[(]|x", "f[(]|x", "[)]x|y", "[|]", "a[(|)]b|c", "f\\\\(|x", "x|f\\\\(", "\\\\)|a", "(a[(]|b)c", "[(][)]|ab"}
+        subs = [""] + ["".join(t) for n in (1, 2, 3) for t in itertools.product("abc", repeat=n)] + ["a\rb", "a\nb", "a.c", "(a)", "abab", "aab", "bbbb", "a\\", "]", "\r", "\n", "é", "\U0001F600", "ab\U0001F600",
+                                                                                                  "f(1)", "max", "f(", "x", "(", ")", "|", "(x", "f(x", "a(b", "a|b", ")x", "y", "()", "ab"]
         doc = ("a",) + tuple(S(x) for x in subs) + (("i", 1), "null", ("a", S("a")))
         out = []
         pats = sorted(pats)
         if self.tier == "quick":
-            pats = self.rng.sample(pats, 160) + ["^a|b$", "a)(?:b", "a.c", ".", "a|", "", "(a|b)c", "a\\\\.c", "a\\\\", "\\\\(a\\\\)", "[\\\\]]", "a\\nb"]
+            pats = self.rng.sample(pats, 160) + ["^a|b$", "a)(?:b", "a.c", ".", "a|", "", "(a|b)c", "a\\\\.c", "a\\\\", "\\\\(a\\\\)", "[\\\\]]", "a\\nb",
+                                                 "[(]|x", "f[(]|x", "[)]x|y", "[|]", "a[(|)]b|c", "f\\\\(|x", "x|f\\\\(", "\\\\)|a", "(a[(]|b)c", "[(][)]|ab"]
         for p in pats:
             for fn in ("match", "search"):
                 q = ("q", ("sel", ("filter", ("atom", ("atest", ("tfn", (fn, ("argt", ("rel",)), ("argl", ("str", S(p))))), 0)))))
@@ -695,6 +698,19 @@ class C10(EvalProp):
                 out.append(self.make_case("t", filt(("cmp", op, ("fn", ("length", ("argt", ("tfn", ("value", XS))))), ("lit", ("int", n)))), doc, {"fn": "length-value"}))
         for l in V_SCALAR:
             out.append(self.make_case("t", filt(("cmp", "eq", ("fn", ("length", ("argl", lit_of(l)))), ("lit", ("int", 1)))), ("a", ("i", 0)), {"fn": "length-lit"}))
+        # nodelists in which the same node occurs several times: count() counts nodes, not locations; value() needs exactly one node
+        dup_doc = ("a", ("a",), ("a", ("i", 7)), ("a", ("i", 1), ("i", 2)), ("a", ("i", 1), ("i", 2), ("i", 3)), o_(a=("i", 1)), o_(a=("i", 1), b=("i", 2)),
+                   ("a", ("a", ("i", 1)), ("a", ("i", 2))), ("i", 5))
+        dup_args = [("sels", ("idx", 0), ("idx", 0)), ("sels", ("idx", 0), ("idx", -1)), ("sels", ("slice", 0, 2, None), ("slice", 1, 3, None)),
+                    ("sels", "wild", ("idx", 0)), ("sels", ("name", S("'a'")), ("name", S("'a'"))), ("sels", "wild", "wild"),
+                    ("sels", ("slice", None, None, None), ("slice", None, None, -1)), ("sels", ("name", S("'a'")), "wild")]
+        for sels in dup_args:
+            for arg in (("argt", ("rel", sels)), ("argt", ("rel", ("desc", sels))), ("argt", ("rel", ("sel", "wild"), sels))):
+                for n in range(0, 7):
+                    out.append(self.make_case("t", filt(("cmp", "eq", ("fn", ("count", arg)), ("lit", ("int", n)))), dup_doc, {"fn": "count-dups"}))
+                for op in ("eq", "ne"):
+                    out.append(self.make_case("t", filt(("cmp", op, ("fn", ("value", arg)), ("lit", ("int", 1)))), dup_doc, {"fn": "value-dups"}))
+                    out.append(self.make_case("t", filt(("cmp", op, ("fn", ("value", arg)), ("sq", "cur", ("n", S("missing"))))), dup_doc, {"fn": "value-dups-nothing"}))
         return out
 
     def known_class(self, c, ans, I, M, R, S_, K):
